@@ -21,7 +21,7 @@ def tla_set(xs):
 # Access family: C03 (pair-verify machine + session switch) and C01 (gating layer)
 # =====================================================================================================
 
-ACCESS_FINISH = ["genuine", "wrongkey", "stale", "reordered", "replayed", "unknown", "self", "badseal", "short", "badtlv"]
+ACCESS_FINISH = ["genuine", "wrongkey", "stale", "reordered", "replayed", "unknown", "self", "reflect", "badseal", "short", "badtlv"]
 ACCESS_OPS = ["GetAcc", "GetChar", "PutVal", "PutSub", "Resource", "AddPair", "RemPair"]
 ACCESS_NOISE = ["psstart", "pswrong", "pszero"]
 ACCESS_GUARDS = ["session_installed_only_without_error", "signature_checked", "authenticate_checks_verified",
@@ -49,7 +49,7 @@ CHECK_DEADLOCK FALSE
 def access_slices(prop):
     if prop == 'C03':
         return dict(finish=ACCESS_FINISH, lens=["ok", "short", "long", "empty"], ops=["GetAcc"], noise=[])
-    return dict(finish=["genuine", "wrongkey", "self"], lens=["ok"], ops=ACCESS_OPS, noise=ACCESS_NOISE)
+    return dict(finish=["genuine", "wrongkey", "self", "reflect"], lens=["ok"], ops=ACCESS_OPS, noise=ACCESS_NOISE)
 
 
 def access_generate(run):
@@ -152,9 +152,9 @@ def access_family(run, replay=None):
 # PairSetup family: C02
 # =====================================================================================================
 
-PS_ALL = dict(AVals=["good", "zero", "N", "missing"], Proofs=["right", "wrong", "missing"], Seals=["this", "other", "zero", "random"],
+PS_ALL = dict(AVals=["good", "zero", "N", "missing", "replay"], Proofs=["right", "wrong", "missing"], Seals=["this", "other", "zero", "random"],
               Bodies=["genuine", "badsig", "mismatch", "badtlv"], Shapes=["ok", "tagflip", "ctflip", "short", "empty"])
-PS_CORE = dict(AVals=["good", "zero"], Proofs=["right", "wrong"], Seals=["this", "zero"],
+PS_CORE = dict(AVals=["good", "zero", "replay"], Proofs=["right", "wrong"], Seals=["this", "zero", "other"],
                Bodies=["genuine", "badsig"], Shapes=["ok", "tagflip", "short"])
 PS_GUARDS = ["verify_bad_A_resets", "step_checked_before_kex", "signature_checked", "aead_checked"]
 
